@@ -111,9 +111,14 @@ partial def parseBody (j : Json) : JE (Body × Bool) := do
   | "graph" => do
       let g ← GraphCase.parseGraph (← J.field j "g")
       let r := compile GraphCase.defaultStepSlack g
-      pure (Body.det (fun v => match toFlat v with
-        | some m => (run GraphCase.flatOps r m).result.map ofFlat
-        | none => .error { cls := .fuel }), true)
+      let gj ← J.field j "g"
+      -- a nested graph may report any failing task of its failing step (at any depth)
+      pure ({ f := fun v => match toFlat v with
+                | some m => (run GraphCase.flatOps r m).result.map ofFlat
+                | none => .error { cls := .fuel },
+              alts := fun v => match toFlat v with
+                | some m => (match GraphCase.errAlts gj m with | .ok l => l | .error _ => [])
+                | none => [{ cls := .fuel }] }, true)
   | "chain" => do
       let (ps, ok) ← parseChain (← J.field j "c")
       let c : Chain := ps.map (·.stage)
